@@ -20,7 +20,7 @@ RULE = (
     "complex_mode=True. Non-trivial = form has a coefficient and (a math function, or a literal not representable in float32, "
     "or a complex operator/literal); distinct by spec hash."
 )
-PROFILE = {"measures": ["dx", "dx", "ds", "dS"], "ids": "simple", "max_integrals": 2, "depth": 2, "maxdeg": 2, "max_qdeg": 4,
+PROFILE = {"measures": ["dx", "dx", "ds", "dS", "dP"], "ids": "simple", "max_integrals": 2, "depth": 2, "maxdeg": 2, "max_qdeg": 4,
            "complex": True, "p_scheme": 0.05, "ncoef": (1, 3)}
 TYPES = ["float32", "float64", "complex64", "complex128"]
 INEXACT32 = {0.3, -0.7, 1.1, 1e-3, 0.1}
